@@ -188,6 +188,12 @@ def check_C06(chk, tier, seed):
             script = []
         cases.append(f"SE {c[2:]} {ws(script)}")
         expect.append(("write", "SE ok " + xb(fr)))
+        if k % 3 == 0:
+            # the same through a writer that says it gathers (is_write_vectored, as a TcpStream does) and takes 1 ... 19 / 20 / 21
+            # octets of whatever it is offered first, then the rest in its own portions
+            first = [1, 2, 3, 4, 7, 8, 12, 19, 20, 21, 5][(k // 3) % 11]
+            cases.append(f"SE {c[2:]} {ws(['v', first] + [x for x in script if x != 'p'][:40] + [1 << 20])}")
+            expect.append(("write-gathering-writer", "SE ok " + xb(fr)))
         if k % 7 == 3:
             # a peer that stops reading for a while (6 s, a minute, an hour of virtual time) in the middle of the frame and then goes
             # on: the write waits - it neither gives up nor reports success for a prefix
@@ -469,6 +475,13 @@ def server_scenarios(rng, eng, msgs, n, tier):
             ops = [("ADDAVP", 264, None, 0x40, ("L", ("id", host))), ("ADDAVP", 296, None, 0x40, ("L", ("id", b"realm.example.com")))]
             if j >= 2:
                 ops.append(("ADDAVP", 415, None, 0x40, ("L", ("u32", j))))
+            if k % 2:
+                # the AVPs a relay / proxy would look at (Session-Id, Proxy-Info with Proxy-Host and Proxy-State, Route-Record,
+                # Destination-Host): to the connection loop they are payload - the answer written is the handler's, nothing added
+                ops.append(("ADDAVP", 263, None, 0x40, ("L", ("utf", b"ses;%d" % k))))
+                ops.append(("ADDAVP", 284, None, 0x40, ("GN", [("E", 280, None, 0x40, ("L", ("id", b"proxy.example.com"))), ("E", 33, None, 0x40, ("L", ("oct", b"state%d" % k)))])))
+                ops.append(("ADDAVP", 282, None, 0x40, ("L", ("id", b"relay.example.com"))))
+                ops.append(("ADDAVP", 293, None, 0x40, ("L", ("id", b"dest.example.com"))))
             ohist.append(hist_line("b", ("NEW", cmd, app, fl, hbh, e2e), ops))
     oimpl = core.run_sharded([eng.harness, "codec"], eng.prelude, ohist)
     omsgs = [(c, bytes.fromhex(im[im.rindex(" ENC ") + 6:].split()[0]), msg_text(im)) for c, im in zip(ohist, oimpl) if im.startswith("R ok") and " ENC x" in im]
@@ -512,6 +525,21 @@ def server_scenarios(rng, eng, msgs, n, tier):
         case = f"SV g {rs(chunks)} {ws([])} 3 " + " ".join(f"Z {hx(z)} A " + a[0][2:] for a in answers)
         exp = "SV closed CALLS 3" + "".join(f" [{q[2]}]" for q in reqs) + f" WRITTEN {xb(b''.join(a[1] for a in answers))}"
         out.append((case, exp, "slow-handler-partial-next", 3))
+    # a peer that sends a request together with the first octets of the next one and the REST only after it has seen the answer
+    # to the first (it waits for / times out on that answer): an answer is on the stream when the handler has given it, not when
+    # the server has nothing else to read
+    for k in range(27 if tier == "quick" else 600):
+        r = rng.fork(f"await{k}")
+        reqs = [msgs[r.below(len(msgs))] for _ in range(3)]
+        answers = [msgs[r.below(len(msgs))] for _ in range(3)]
+        f2 = reqs[1][1]
+        cut = max(1, min([1, 3, 4, 5, 19, 20, 21, len(f2) - 1, len(f2) // 2][k % 9], len(f2) - 1))
+        a1 = len(answers[0][1])
+        need = [a1, 1, a1 - 1][(k // 9) % 3]
+        chunks = [reqs[0][1] + f2[:cut], "w:%x" % need, f2[cut:] + reqs[2][1]]
+        case = f"SV g {rs(chunks)} {ws([] if k % 2 else [7] * 40)} 3 " + " ".join("A " + a[0][2:] for a in answers)
+        exp = "SV closed CALLS 3" + "".join(f" [{q[2]}]" for q in reqs) + f" WRITTEN {xb(b''.join(a[1] for a in answers))}"
+        out.append((case, exp, "rest-sent-after-answer-seen", 3))
     # an answer that cannot be encoded AFTER a lot of it could (70 000 / 200 000 octets of AVPs, then a Time in 2040): nothing
     # of it may reach the stream, the connection ends, the earlier answers stand
     for k, n in enumerate([70000, 200000]):
